@@ -6,7 +6,7 @@ package main
 // ops:   case N
 //        parse HEX                        → ok TREE | err CLASS
 //        ap BODY COND OP…                 → out HEX wf=0/1 | err CLASS | panic
-//        pf STORED CREATE SEED COND OP…   → st=N absent|other|b:HEX | panic
+//        pf STORED CREATE SEED COND OP…   → st=N absent|other|b:HEX wf=0/1 new=HEX|- | panic
 // COND = `-` | op:pathhex:thresholdhex      OP = kind:pathhex:valuehex     empty hex = `-`/""
 // TREE = L<hex> | M{<keyhex>:TREE,…} | A[TREE,…]
 // wf   = does the REAL parser accept the output body
@@ -635,6 +635,10 @@ func c13Cond(rng *rand.Rand, addrs []c13Addr) string {
 	}
 	var thr []byte
 	switch {
+	case node != nil && node.kind == 0 && c13ClassOf(node.raw[0]) == 3 && rng.Intn(10) < 2:
+		// float field: NaN threshold (float64 or float32, quiet or signalling)
+		thr = [][]byte{{0xcb, 0x7f, 0xf8, 0, 0, 0, 0, 0, 0}, {0xca, 0x7f, 0xc0, 0, 0}, {0xcb, 0xff, 0xf0, 0, 0, 0, 0, 0, 1},
+			{0xca, 0x7f, 0x80, 0, 1}}[rng.Intn(4)]
 	case node != nil && node.kind == 0 && rng.Intn(10) < 3:
 		thr = node.raw
 	case node != nil && node.kind == 0 && c13ClassOf(node.raw[0]) != 0 && rng.Intn(10) < 7:
@@ -933,18 +937,27 @@ func (p *c13PF) run(f []string) string {
 	if err != nil {
 		return "error " + err.Error()
 	}
-	stored := "absent"
+	stored, wf := "absent", 0
 	if t, err := sw.GetTreasure(key); err == nil && t != nil {
 		switch t.GetContentType() {
 		case treasure.ContentTypeVoid:
 		case treasure.ContentTypeByteArray:
 			b, _ := t.GetContentByteArray()
 			stored = "b:" + c13H(b)
+			if len(b) >= 2 {
+				if _, perr := msgpackpatch.Parse(b[2:]); perr == nil {
+					wf = 1
+				}
+			}
 		default:
 			stored = "other"
 		}
 	}
-	return fmt.Sprintf("st=%d %s", res.Status, stored)
+	echo := "-"
+	if res.NewMsgpack != nil {
+		echo = c13H(res.NewMsgpack)
+	}
+	return fmt.Sprintf("st=%d %s wf=%d new=%s", res.Status, stored, wf, echo)
 }
 
 func c13Run(in *bufio.Scanner, w *bufio.Writer) {
